@@ -211,6 +211,10 @@ PANICKING_EXTERNAL = re.compile(
 )
 
 
+_INT = r"(?:u8|u16|u32|u64|u128|usize|i8|i16|i32|i64|i128|isize)"
+INT_ARITH_IMPL = re.compile(r"^<&?(?:'\w+ )?%s as std::ops::(Add|Sub|Mul|Div|Rem|Neg|Shl|Shr)(?:<&?(?:'\w+ )?%s>)?>::\w+$" % (_INT, _INT))
+
+
 def is_panicking_external(name):
     return bool(PANICKING_EXTERNAL.search(name or ""))
 
@@ -248,6 +252,11 @@ def panic_sites(c, local_names):
                         k = "panic:" + m + "!"
                         break
                 out.append({"kind": k, "block": i, "ln": t["ln"], "mac": t.get("mac")})
+            elif INT_ARITH_IMPL.match(n):
+                # `a + &b` on integers goes through std's reference-operand impl, whose body holds the same overflow check a primitive `a + b` has in
+                # this function's MIR: one kind for both spellings
+                op = INT_ARITH_IMPL.match(n).group(1)
+                out.append({"kind": "assert:DivisionByZero" if op in ("Div", "Rem") else "assert:Overflow(%s)" % op, "block": i, "ln": t["ln"], "mac": t.get("mac")})
             elif n not in local_names and is_panicking_external(n):
                 out.append({"kind": "ext:" + short_callee(n), "block": i, "ln": t["ln"], "mac": t.get("mac")})
     return out
